@@ -99,14 +99,20 @@ def api_case(spec, ctx):
                 accepted = False
             if accepted:
                 ctx.fail(f"api:unknown-name-accepted:{what.split('[')[0]}", f"{what}({bogus}=1.0) accepted; names {al}", spec)
-        wrong = np.zeros((nn + 1, 1)) if not is_cov else np.zeros((nn, nn + 1))
-        try:
-            cls.from_data(wrong)
-            accepted = True
-        except Exception:  # "rejects wrong shapes": any error
-            accepted = False
-        if accepted:
-            ctx.fail(f"api:wrong-shape-accepted:{what.split('[')[0]}", f"{what}.from_data(shape {wrong.shape}) accepted", spec)
+        right = (nn, nn) if is_cov else (nn, 1)
+        # wrong shapes, including the ones numpy would happily broadcast to the right one
+        shapes = [(nn + 1, 1), (nn, nn + 1), (1, 1), (1,), (), (nn,), (1, nn), (nn, 1), (nn, nn), (nn, 2), (nn, 1, 1)]
+        for shp in shapes:
+            if shp == right:
+                continue
+            wrong = np.full(shp, 0.5)
+            try:
+                cls.from_data(wrong)
+                accepted = True
+            except Exception:  # "rejects wrong shapes": any error
+                accepted = False
+            if accepted:
+                ctx.fail(f"api:wrong-shape-accepted:{what.split('[')[0]}", f"{what}.from_data(array of shape {shp}) accepted; the shape must be {right}", spec)
         with ctx.formak("api:from_dict", spec):
             obj2 = cls.from_dict({sympy.Symbol(k): v for k, v in kw.items()})
         if not np.array_equal(np.asarray(obj2.data, float), data):
